@@ -480,6 +480,32 @@ def release (c : Current) (f : Family) (s : State) (addr : Nat) (file : String) 
   | .new => dealloc (invalidateMemory s addr) c.newA addr "<unknown>" 0 false
   | .newArray => dealloc (invalidateMemory s addr) c.newArrayA addr "<unknown>" 0 false
 
+/-- the current allocator a release wrapper asks for -/
+def Current.byGetter (c : Current) (getter : String) : Allocator :=
+  if getter == "getCurrentMallocAllocator" then c.mallocA
+  else if getter == "getCurrentNewArrayAllocator" then c.newArrayA
+  else c.newA
+
+/-- A release wrapper of MemoryLeakWarningPlugin.cpp executed as the REGENERATED description says (plain and
+    thread-safe variants; the scoped lock of the latter is not modelled): the two detector calls in the order they
+    have in the source, with the wrapper's current allocator, location arguments and layout flag. -/
+def releaseBy (w : Gen.LeakDetector.ReleaseWrapper) (c : Current) (s : State) (addr : Nat) (file : String) (line : Nat) :
+    State × List Ev :=
+  if w.invalidateThenDealloc then
+    dealloc (invalidateMemory s addr) (c.byGetter w.getter) addr (if w.withLocation then file else "<unknown>")
+      (if w.withLocation then line else 0) w.separateNode
+  else
+    ((invalidateMemory (dealloc s (c.byGetter w.getter) addr (if w.withLocation then file else "<unknown>")
+        (if w.withLocation then line else 0) w.separateNode).1 addr),
+     (dealloc s (c.byGetter w.getter) addr (if w.withLocation then file else "<unknown>")
+        (if w.withLocation then line else 0) w.separateNode).2)
+
+/-- the family a release wrapper serves -/
+def familyOfGetter (getter : String) : Family :=
+  if getter == "getCurrentMallocAllocator" then .malloc
+  else if getter == "getCurrentNewArrayAllocator" then .newArray
+  else .new
+
 /-- `operator new` / `operator new[]` / `cpputest_malloc_location` -/
 def acquire (c : Current) (f : Family) (s : State) (size : Nat) (file : String) (line : Nat)
     (result : Nat) (nodeOk : Bool) (fill : UInt8) : State × List Ev :=
